@@ -50,6 +50,54 @@ func (c22) Generate(r *engine.Rand, index int, tier string) *engine.Scenario {
 		sc.Cycles = 70<<20 + 16
 		return sc
 	}
+	if index%50 == 17 {
+		// what many cartridges do at start-up: a Super Game Boy command packet is clocked out through the
+		// two select lines (reset pulse, 128 bits as 10/20 pulses with 30 in between, stop bit), then the
+		// pad is polled with neither group selected. A DMG has no such multiplexer: JOYP reads as always
+		sc.Class = "sgb-probe"
+		at := uint64(1)
+		w := func(v uint8) {
+			sc.Events = append(sc.Events, engine.Event{At: at, K: "bus_w", A: 0xff00, V: v})
+			at += uint64(r.Range(1, 6))
+		}
+		for p, np := 0, r.Range(1, 3); p < np; p++ {
+			pkt := make([]byte, 16)
+			pkt[0] = engine.Pick(r, []uint8{0x89, 0x89, 0x89, 0x51, 0xb9, r.Byte()}) // MLT_REQ and others
+			pkt[1] = engine.Pick(r, []uint8{0x01, 0x03, 0x00, r.Byte()})
+			for i := 2; i < 16; i++ {
+				if r.Chance(1, 4) {
+					pkt[i] = r.Byte()
+				}
+			}
+			w(0x00)
+			w(0x30)
+			for _, b := range pkt {
+				for i := 0; i < 8; i++ {
+					if b>>uint(i)&1 != 0 {
+						w(0x10)
+					} else {
+						w(0x20)
+					}
+					w(0x30)
+				}
+			}
+			w(0x20)
+			w(0x30)
+			at += uint64(r.Range(1, 70000))
+			for i, n := 0, r.Range(2, 10); i < n; i++ {
+				sc.Events = append(sc.Events, engine.Event{At: at, K: "bus_r", A: 0xff00})
+				at++
+				if r.Bool() {
+					sc.Events = append(sc.Events, engine.Event{At: at, K: "key", A: uint16(r.Intn(8)), V: uint8(r.Intn(2))})
+					at++
+				}
+				w(engine.Pick(r, []uint8{0x10, 0x20}))
+				w(0x30)
+			}
+		}
+		sc.Cycles = at + 4
+		return sc
+	}
 	burst := index%4 == 2 // key events come in bursts and JOYP is only looked at by explicit reads
 	if burst {
 		sc.Class = "walk-bursts"
